@@ -34,12 +34,14 @@ package fix
 
 //@ interface Value
 //@   method FromBytes(d []byte) (err error):
+//@     safety[C11]
 //@     modifies self.*
 //@     ensures[C02,C03] imp(istype(self, *Raw), err == nil && self.(*Raw).value == d)
 //@     ensures[C02,C14,C16,C10,C06] @decoded imp(!isnil(d), fbPost(self, d, err))
 //@     ensures[C02] @null imp(isnil(d) && !istype(self, *Raw), nullV(self) && err == nil)
 //@     reveal nullV
 //@   method Value() (res interface{}):
+//@     safety[C11]
 //@     pure
 //@     ensures[C11] imp(istype(self, *Int), istype(res, int))
 //@   method Set(d interface{}) (err error):
@@ -56,10 +58,12 @@ package fix
 //@     reveal nullV
 //@     reveal wireV
 //@   method IsNull() (res bool):
+//@     safety[C11]
 //@     pure
 //@     ensures[C17,C01] res == nullV(self)
 //@     reveal nullV
 //@   method ToBytes() (res []byte):
+//@     safety[C11]
 //@     pure
 //@     ensures[C17,C01,C02] res == wireV(self)
 //@     reveal wireV
@@ -94,6 +98,7 @@ package fix
 //@   ite(kv == nil || kv.Value == nil || nullV(kv.Value) || isnil(wireV(kv.Value)), nilbytes, bytes(cat(kv.Key, "=", wireV(kv.Value))))
 
 //@ func (kv *KeyValue) ToBytes() (res []byte)
+//@   safety[C11]
 //@   pure
 //@   ensures[C17,C01] res == wireKV(kv)
 
@@ -121,6 +126,7 @@ package fix
 //@ spec isItemType(x Item) bool = istype(x, *KeyValue) || istype(x, *Group) || istype(x, *Component)
 
 //@ func (g *Group) AddEntry(v Items) (res *Group)
+//@   safety[C11]
 //@   requires g != nil
 //@   modifies g.items
 //@   forall j int
@@ -131,6 +137,7 @@ package fix
 // Entries hands out the group's own entries: replacing an item of a returned entry
 // (as the generated entry setters do) changes the group
 //@ func (g *Group) Entries() (res []Items)
+//@   safety[C11]
 //@   requires g != nil
 //@   pure
 //@   forall j int
@@ -144,6 +151,7 @@ package fix
 //@   ensures[C01,C17] @values res.checkSum.Value != nil && istype(res.checkSum.Value, *String) && istype(res.beginString.Value, *String) && istype(res.msgType.Value, *String) && res.beginString.Value.(*String).value == beginString && res.beginString.Value.(*String).valid && res.msgType.Value.(*String).value == msgType && res.msgType.Value.(*String).valid
 //@   ensures[C01,C17] @distinctvalues res.checkSum.Value != res.beginString.Value && res.checkSum.Value != res.msgType.Value
 //@ func (kv *KeyValue) Load() (res Value)
+//@   safety[C11]
 //@   requires kv != nil
 //@   pure
 //@   ensures[C17,C02] res == kv.Value
@@ -182,6 +190,7 @@ package fix
 //@   pure
 //@   ensures[C17,C02] res == nth(c.items, id)
 //@ func (c *Component) Items() (res Items)
+//@   safety[C11]
 //@   requires c != nil
 //@   pure
 //@   ensures[C17,C02] res == c.items
@@ -295,6 +304,7 @@ package fix
 //@ interface Item
 //@   implementations *KeyValue, *Component, *Group
 //@   method ToBytes() (res []byte):
+//@     safety[C11]
 //@     pure
 //@     ensures[C17,C01] res == wireItem(self)
 //@     lemma wire_item(self)
@@ -398,6 +408,7 @@ package fix
 //@ func NewString(v string) (res *String)
 //@   ensures[C17] res != nil && res.valid && res.value == v
 //@ func NewInt(value int) (res *Int)
+//@   safety[C11]
 //@   ensures[C17] res != nil && res.valid && res.value == value
 //@ func NewUint(value uint64) (res *Uint)
 //@   ensures[C17] res != nil && res.valid && res.value == value
@@ -406,8 +417,10 @@ package fix
 //@ func NewTime(value time.Time) (res *Time)
 //@   ensures[C17] res != nil && res.valid && res.value == value
 //@ func NewRaw(v []byte) (res *Raw)
+//@   safety[C11]
 //@   ensures[C17] res != nil && res.value == v
 //@ func NewKeyValue(key string, value Value) (res *KeyValue)
+//@   safety[C11]
 //@   inline
 
 //@ lemma[C03,C02] wireV_raw(v Value): requires istype(v, *Raw) ensures wireV(v) == v.(*Raw).value && nullV(v) == isnil(v.(*Raw).value)
@@ -415,6 +428,7 @@ package fix
 
 // ---- template copies (C02b) -----------------------------------------------------------
 //@ func (kv *KeyValue) AsTemplate() (res *KeyValue)
+//@   safety[C11]
 //@   requires kv != nil
 //@   ensures[C02] @fresh fresh(res) && res.Key == kv.Key && res.Value != nil && res.Value != kv.Value
 //@   ensures[C02] @sametype typeof(res.Value) == typeof(kv.Value) || !isLibValue(kv.Value)
